@@ -13,11 +13,16 @@
    `append(parentIndex, i)` writing into the parent's spare capacity.  Which of the two the CURRENT
    source uses is read from Gen.RelmodShape (child_index_mode / alt_index_mode).
 
-   Outside the model: Src.* (source-context) relations, the Import relation, annotation VALUES, return
-   payload CONTENTS (the embedded payload grammar is abstracted to PayGood / PayBad per payload), and
-   panics on malformed attribute shapes.  They are judged by the Go oracle only. *)
+   Return payloads are byte strings read by Payload.parse_payload (the embedded grammar, transliterated); annotation
+   values go through Payload.attr_to_value; every normalize*Meta function also emits the Src.* rows (source contexts
+   of the element and of each annotation).  How PRIMITIVE is written in the grammar, the order of the modifiers and
+   what happens to a name given two values are read from the source (a `grammar` value, Gen.RelmodShape.payload_grammar).
+
+   Outside the model: the Import relation, payloads with a backslash or "{" (LRetOpaque: class observed, contents
+   not compared), panics on malformed attribute shapes. *)
 From Coq Require Import List NArith ZArith PArith Bool.
 Import ListNotations.
+Require Export Verif.Relmod.Payload.
 
 Definition name := positive.
 Definition appname := list name.
@@ -25,7 +30,7 @@ Definition appname := list name.
 (* The harness interns ORDER-PRESERVINGLY: ids compare (Pos order) as the strings do in Go (bytewise), so that the
    sortedKeys walks of the code are sorts by id here. The six constants keep fixed ids 2^20 apart; a string with j
    constants below it gets j * 2^20 + its rank among such strings. *)
-Definition n_empty : name := 1048576%positive.        (* "" *)
+Definition n_empty : name := id_empty_string.          (* "" = 1048576 *)
 Definition n_placeholder : name := 2097152%positive.  (* "..." *)
 Definition n_any : name := 3145728%positive.          (* "any" *)
 Definition n_method : name := 4194304%positive.       (* "method" *)
@@ -69,22 +74,17 @@ Fixpoint parse_field_type (app:appname) (t:mtype) : ty :=
   end.
 
 (* ---------- module projection ---------- *)
-Record attrs := { a_tags : list name; a_annos : list name }.
+(* what a normalize*Meta function reads of an element: Attrs ("patterns" = the tags, every other attribute an
+   annotation with its value and its own source contexts) and SourceContexts *)
+Record srcctx := { sc_file : name; sc_pos : list N }.        (* file; start line, start col, end line, end col *)
+Record anno := { an_name : name; an_val : aval; an_srcs : list srcctx }.
+Record attrs := { a_tags : list name; a_annos : list anno; a_srcs : list srcctx }.
 
-(* what the payload grammar extracts from an accepted payload, as far as the harness's own reading of the payload
-   text goes: status and the type expression; a reference without application means "this application" *)
-Inductive rtype := RPrim (p:name) | RRef (app:appname) (path:list name) | RSet (t:rtype) | RSeq (t:rtype).
-Inductive payload := PayEmpty | PayGood (status:name) (t:option rtype) | PayBad.
-Fixpoint unpack_type (app:appname) (t:rtype) : ty :=
-  match t with
-  | RPrim p => TyPrim p
-  | RRef [] path => TyRef app path
-  | RRef a path => TyRef a path
-  | RSet t' => TySet (unpack_type app t')
-  | RSeq t' => TySeq (unpack_type app t')
-  end.
-Definition label := (name * option rtype)%type.
-Inductive leafkind := LAction | LCall | LRet (p:payload) | LNone.
+(* a statement row is labelled with its text (interned) or, for a return, with the payload text (bytes) that
+   item_row hands to the payload reader *)
+Definition label := (name * option str)%type.
+(* LRet: `return <payload>`; LRetOpaque: a payload outside the modelled fragment - refused or not, as observed *)
+Inductive leafkind := LAction | LCall | LRet (payload:str) | LRetOpaque (bad:bool) | LNone.
 Inductive blockkind := BCond | BLoop | BLoopN | BForeach | BGroup.
 Inductive stmt :=
 | SLeaf (k:leafkind) (t:name) (a:attrs)
@@ -107,7 +107,8 @@ Inductive tdef :=
 | DOther.                               (* NoType, List, Map, OneOf, unset: a Type row only *)
 Record typedecl := { t_name : name; t_doc : name; t_opt : bool; t_def : tdef; t_attrs : attrs }.
 Record view := { v_name : name; v_ret : mtype; v_attrs : attrs }.
-Record app := { ap_name : appname; ap_long : name; ap_doc : name; ap_attrs : attrs; ap_mixins : list (appname * attrs);
+Record app := { ap_name : appname; ap_sname : list str (* the same name as bytes: payload references resolve to it *);
+                ap_long : name; ap_doc : name; ap_attrs : attrs; ap_mixins : list (appname * attrs);
                 ap_eps : list endpoint; ap_types : list typedecl; ap_views : list view }.
 Definition module := list app.         (* in the order of the sorted map keys, as normalizeModule visits them *)
 
@@ -115,21 +116,43 @@ Definition module := list app.         (* in the order of the sorted map keys, a
 Inductive owner := OApp | OMixin | OEp | OParam | OStmt | OEvent | OType | OField | OView.
 Inductive relname :=
 | RApp | RMixin | REp | REvent | RParam | RStmt | RType | RTable | RField | REnum | RAlias | RView
-| RTag (o:owner) | RAnno (o:owner).
+| RTag (o:owner) | RAnno (o:owner)
+| RSrc (o:owner) | RSrcAnno (o:owner).           (* Src.<owner> and Src.Anno.<owner> *)
+
+(* the columns that are not names / numbers / a field type *)
+Inductive xinfo :=
+| XNone
+| XVal (v:rval)                                                       (* annotation value *)
+| XRet (status:str) (t:option sty) (mods:list str) (nvp:list (str * nval))   (* StmtRet *)
+| XSrc (first:srcctx) (all:list srcctx)                               (* <X>Src, <X>Srcs *)
+| XSrcs (all:list srcctx).                                            (* AnnoSrcs *)
 
 Record row := { r_rel : relname; r_app : appname; r_names : list name; r_path : list N; r_nums : list Z; r_ty : ty;
-                r_app2 : appname }.
+                r_app2 : appname; r_x : xinfo }.
+Definition mkx (r:relname) (a:appname) (ns:list name) (p:list N) (zs:list Z) (x:xinfo) : row :=
+  {| r_rel := r; r_app := a; r_names := ns; r_path := p; r_nums := zs; r_ty := TyNil; r_app2 := []; r_x := x |}.
 Definition mk (r:relname) (a:appname) (ns:list name) (p:list N) (zs:list Z) (t:ty) : row :=
-  {| r_rel := r; r_app := a; r_names := ns; r_path := p; r_nums := zs; r_ty := t; r_app2 := [] |}.
+  {| r_rel := r; r_app := a; r_names := ns; r_path := p; r_nums := zs; r_ty := t; r_app2 := []; r_x := XNone |}.
 Definition mk2 (r:relname) (a:appname) (ns:list name) (zs:list Z) (a2:appname) : row :=
-  {| r_rel := r; r_app := a; r_names := ns; r_path := []; r_nums := zs; r_ty := TyNil; r_app2 := a2 |}.
+  {| r_rel := r; r_app := a; r_names := ns; r_path := []; r_nums := zs; r_ty := TyNil; r_app2 := a2; r_x := XNone |}.
 
 Definition zb (b:bool) : Z := if b then 1%Z else 0%Z.
 
-(* normalizeXMeta: one tag row per tag (array order), one annotation row per non-"patterns" attribute *)
+(* normalizeXMeta: one tag row per tag (array order); per non-"patterns" attribute in name order one annotation row
+   with its value and, when the attribute has source contexts, one Src.Anno row; then, when the element has source
+   contexts, its Src row (first context and all of them) *)
+Definition anno_rows (o:owner) (a:appname) (keys:list name) (p:list N) (zs:list Z) (an:anno) : list row :=
+  mkx (RAnno o) a (keys ++ [an_name an]) p zs (XVal (attr_to_value (an_val an))) ::
+  match an_srcs an with
+  | [] => []
+  | _ :: _ => [mkx (RSrcAnno o) a (keys ++ [an_name an]) p zs (XSrcs (an_srcs an))]
+  end.
+Definition src_rows (o:owner) (a:appname) (keys:list name) (p:list N) (zs:list Z) (srcs:list srcctx) : list row :=
+  match srcs with [] => [] | s :: _ => [mkx (RSrc o) a keys p zs (XSrc s srcs)] end.
 Definition meta (o:owner) (a:appname) (keys:list name) (p:list N) (zs:list Z) (at_:attrs) : list row :=
   map (fun t => mk (RTag o) a (keys ++ [t]) p zs TyNil) (a_tags at_) ++
-  map (fun n => mk (RAnno o) a (keys ++ [n]) p zs TyNil) (sort_names (a_annos at_)).
+  concat (map (anno_rows o a keys p zs) (sorted_by an_name (a_annos at_))) ++
+  src_rows o a keys p zs (a_srcs at_).
 
 (* ---------- statements ---------- *)
 (* which Stmt* column of the row is set *)
@@ -137,25 +160,34 @@ Definition leaf_code (k:leafkind) (t:name) : Z :=
   match k with
   | LAction => if Pos.eqb t n_empty then 0 else 1       (* StmtAction = "" is indistinguishable from unset *)
   | LCall => 2
-  | LRet PayEmpty => 0                                  (* `Payload != ""` guard: nothing set *)
+  | LRet [] => 0                                        (* `Payload != ""` guard: nothing set *)
   | LRet _ => 8
+  | LRetOpaque _ => 8
   | LNone => 0
   end%Z.
 Definition block_code (k:blockkind) : Z :=
   match k with BCond => 3 | BLoop => 4 | BLoopN => 5 | BForeach => 6 | BGroup => 7 end%Z.
 Definition choice_code : Z := 9%Z.
 Definition leaf_label (k:leafkind) (t:name) : label :=
-  match k with LRet (PayGood st rt) => (st, rt) | _ => (t, None) end.
+  match k with LRet (c :: p) => (t, Some (c :: p)) | _ => (t, None) end.
 (* `if stmt.GetAction().Action == placeholder { return nil }` *)
 Definition hidden (k:leafkind) (t:name) : bool :=
   match k with LAction => Pos.eqb t n_placeholder | _ => false end.
 
 (* item = what one statement contributes, with the position path still abstract (list N or Go slice) *)
-Inductive sitem (P:Type) := IRow (p:P) (code:Z) (t:label) | ITag (p:P) (t:name) | IAnno (p:P) (n:name).
-Arguments IRow {P}. Arguments ITag {P}. Arguments IAnno {P}.
+Inductive sitem (P:Type) :=
+| IRow (p:P) (code:Z) (t:label) | ITag (p:P) (t:name) | IAnno (p:P) (n:name) (v:rval)
+| ISrcAnno (p:P) (n:name) (srcs:list srcctx) | ISrc (p:P) (first:srcctx) (srcs:list srcctx).
+Arguments IRow {P}. Arguments ITag {P}. Arguments IAnno {P}. Arguments ISrcAnno {P}. Arguments ISrc {P}.
 
+(* normalizeStatementMeta *)
+Definition sanno {P} (p:P) (an:anno) : list (sitem P) :=
+  IAnno p (an_name an) (attr_to_value (an_val an)) ::
+  match an_srcs an with [] => [] | _ :: _ => [ISrcAnno p (an_name an) (an_srcs an)] end.
+Definition ssrc {P} (p:P) (srcs:list srcctx) : list (sitem P) :=
+  match srcs with [] => [] | s :: _ => [ISrc p s srcs] end.
 Definition smeta {P} (p:P) (a:attrs) : list (sitem P) :=
-  map (ITag p) (a_tags a) ++ map (IAnno p) (sort_names (a_annos a)).
+  map (ITag p) (a_tags a) ++ concat (map (sanno p) (sorted_by an_name (a_annos a))) ++ ssrc p (a_srcs a).
 
 Definition mapi_from {A B} (f : N -> A -> B) : list A -> N -> list B :=
   fix go (l:list A) (i:N) : list B :=
@@ -268,7 +300,9 @@ Section Heap.
     match it with
     | IRow p c t => IRow (sl_read h p) c t
     | ITag p t => ITag (sl_read h p) t
-    | IAnno p n => IAnno (sl_read h p) n
+    | IAnno p n v => IAnno (sl_read h p) n v
+    | ISrcAnno p n l => ISrcAnno (sl_read h p) n l
+    | ISrc p s l => ISrc (sl_read h p) s l
     end.
   (* the schema is read after Normalize returns: every stored slice shows the FINAL content of its array *)
   Definition ep_items_heap (stmts:list stmt) : list (sitem (list N)) :=
@@ -281,20 +315,40 @@ Definition ep_items (cm am:idx_mode) (stmts:list stmt) : list (sitem (list N)) :
   | _, _ => ep_items_heap cm am stmts
   end.
 
-(* a return payload the embedded grammar refuses makes normalizeStatement return the error *)
-Fixpoint stmt_bad (st:stmt) : bool :=
+(* a return payload the embedded grammar refuses makes normalizeStatement return the error; one on which
+   parseReturnPayload panics ends Normalize. The first such payload in the order of the walk decides. *)
+Inductive fault := FRefused | FCrash.
+Fixpoint first_some {A} (l:list (option A)) : option A :=
+  match l with [] => None | Some x :: _ => Some x | None :: l' => first_some l' end.
+Definition payload_fault (g:grammar) (text:str) : option fault :=
+  match text with
+  | [] => None
+  | _ => match parse_payload g text with POk _ => None | PErr => Some FRefused | PCrash => Some FCrash end
+  end.
+Fixpoint stmt_fault (g:grammar) (st:stmt) : option fault :=
   match st with
-  | SLeaf (LRet PayBad) _ _ => true
-  | SLeaf _ _ _ => false
-  | SBlock _ _ _ body => existsb stmt_bad body
-  | SAlt _ choices => existsb (fun ch : name * list stmt => existsb stmt_bad (snd ch)) choices
+  | SLeaf (LRet text) _ _ => payload_fault g text
+  | SLeaf (LRetOpaque b) _ _ => if b then Some FRefused else None
+  | SLeaf _ _ _ => None
+  | SBlock _ _ _ body => first_some (map (stmt_fault g) body)
+  | SAlt _ choices => first_some (map (fun ch : name * list stmt => first_some (map (stmt_fault g) (snd ch))) choices)
   end.
 
-Definition item_row (a:appname) (ep:name) (it:sitem (list N)) : row :=
+(* StmtRet of an accepted payload: status, the type resolved against the statement's application, attributes *)
+Definition ret_info (g:grammar) (sa:list str) (text:str) : xinfo :=
+  match parse_payload g text with
+  | POk py => XRet (py_status py) (match py_type py with Some t => Some (unpack sa t) | None => None end)
+                   (py_mods py) (py_nvp py)
+  | _ => XNone
+  end.
+
+Definition item_row (g:grammar) (a:appname) (sa:list str) (ep:name) (it:sitem (list N)) : row :=
   match it with
-  | IRow p c (t, rt) => mk RStmt a [ep; t] p [c] (match rt with Some x => unpack_type a x | None => TyNil end)
+  | IRow p c (t, rt) => mkx RStmt a [ep; t] p [c] (match rt with Some x => ret_info g sa x | None => XNone end)
   | ITag p t => mk (RTag OStmt) a [ep; t] p [] TyNil
-  | IAnno p n => mk (RAnno OStmt) a [ep; n] p [] TyNil
+  | IAnno p n v => mkx (RAnno OStmt) a [ep; n] p [] (XVal v)
+  | ISrcAnno p n l => mkx (RSrcAnno OStmt) a [ep; n] p [] (XSrcs l)
+  | ISrc p s l => mkx (RSrc OStmt) a [ep] p [] (XSrc s l)
   end.
 
 (* ---------- parameters (normalizeParam) ---------- *)
@@ -320,7 +374,7 @@ Definition params_rows (a:appname) (ep:name) (loc:name) (ps:list param) : list r
 Definition ep_skipped (e:endpoint) : bool := Pos.eqb (e_name e) n_placeholder.
 Definition ep_visits_stmts (e:endpoint) : bool := negb (ep_skipped e) && negb (e_pubsub e).
 
-Definition ep_rows (cm am:idx_mode) (a:appname) (e:endpoint) : list row :=
+Definition ep_rows (cm am:idx_mode) (g:grammar) (a:appname) (sa:list str) (e:endpoint) : list row :=
   if ep_skipped e then []
   else if e_pubsub e then
     mk REvent a [e_name e] [] [] TyNil ::
@@ -339,7 +393,7 @@ Definition ep_rows (cm am:idx_mode) (a:appname) (e:endpoint) : list row :=
     | Some (_, _, url, query) => params_rows a (e_name e) n_path url ++ params_rows a (e_name e) n_query query
     | None => []
     end ++
-    map (item_row a (e_name e)) (ep_items cm am (e_stmts e)).
+    map (item_row g a sa (e_name e)) (ep_items cm am (e_stmts e)).
 
 (* ---------- types (normalizeType / normalizeField) ---------- *)
 Definition field_constraint (cs:list constr) : list Z :=
@@ -372,19 +426,26 @@ Definition mixin_rows (a:appname) (m:appname * attrs) : list row :=
   mk RMixin a (fst m) [] [] TyNil :: meta OMixin a (fst m) [] [] (snd m).
 
 (* ---------- applications (normalizeApp) ---------- *)
-Definition app_rows (cm am:idx_mode) (ap:app) : list row :=
+Definition app_rows (cm am:idx_mode) (g:grammar) (ap:app) : list row :=
   let a := ap_name ap in
   mk RApp a [ap_long ap; ap_doc ap] [] [] TyNil ::
   meta OApp a [] [] [] (ap_attrs ap) ++
   concat (map (mixin_rows a) (ap_mixins ap)) ++
-  concat (map (ep_rows cm am a) (sorted_by e_name (ap_eps ap))) ++
+  concat (map (ep_rows cm am g a (ap_sname ap)) (sorted_by e_name (ap_eps ap))) ++
   concat (map (type_rows a) (sorted_by t_name (ap_types ap))) ++
   concat (map (view_rows a) (sorted_by v_name (ap_views ap))).
 
-Inductive outcome := Rows (rs:list row) | Refused.
+Inductive outcome := Rows (rs:list row) | Refused | Crashed.
 
-Definition module_bad (m:module) : bool :=
-  existsb (fun ap => existsb (fun e => ep_visits_stmts e && existsb stmt_bad (e_stmts e)) (ap_eps ap)) m.
+Definition ep_fault (g:grammar) (e:endpoint) : option fault :=
+  if ep_visits_stmts e then first_some (map (stmt_fault g) (e_stmts e)) else None.
+Definition app_fault (g:grammar) (ap:app) : option fault :=
+  first_some (map (ep_fault g) (sorted_by e_name (ap_eps ap))).
+Definition module_fault (g:grammar) (m:module) : option fault := first_some (map (app_fault g) m).
 
-Definition normalize (cm am:idx_mode) (m:module) : outcome :=
-  if module_bad m then Refused else Rows (concat (map (app_rows cm am) m)).
+Definition normalize (cm am:idx_mode) (g:grammar) (m:module) : outcome :=
+  match module_fault g m with
+  | Some FRefused => Refused
+  | Some FCrash => Crashed
+  | None => Rows (concat (map (app_rows cm am g) m))
+  end.
